@@ -702,8 +702,9 @@ def check_algorithm(ctx, cfg, lits64, lits32, binary):
             v.append({'what': 'lexical-internal-op-failed', 'cfg': cfg, 'input': line, 'expected': 'a trace whose parts reproduce parse_concise_float / parse_truncated_float', 'actual': a, 'shrinkable': False})
         if mo is not None and i in mo and mo[i] != a:
             ctx.disagreements.append({'input': line, 'impl': a, 'model': mo[i], 'cfg': cfg, 'op': 'lx'})
-            if mo[i].split(' ')[-1] != a.split(' ')[-1]:
-                v.append({'what': 'algorithm-model-result-differs', 'cfg': cfg, 'input': line, 'expected': 'Model/Lex.v: ' + mo[i], 'actual': a, 'shrinkable': False})
+            # the function-for-function model no longer mirrors the code (the theorems about Model/Lex.v then say nothing about it)
+            what = 'algorithm-model-result-differs' if mo[i].split(' ')[-1] != a.split(' ')[-1] else 'algorithm-model-trace-differs'
+            v.append({'what': what, 'cfg': cfg, 'input': line, 'expected': 'Model/Lex.v: ' + mo[i], 'actual': a, 'shrinkable': False})
     for kx, nx in paths.items():
         ctx.count('lexical-path:' + kx, nx)
     ctx.count('lx-model-compared', len(midx) if mo is not None else 0)
